@@ -35,6 +35,11 @@ RFC3339 specification with nanoseconds.`,
 	}
 }
 
+// maxTimeSecs is the largest number of seconds since the epoch that can be
+// given as nanoseconds in an int64, which is how a time is formed from a
+// number.
+const maxTimeSecs = 9223372036
+
 // CoerceIn coerces an input value into the expected input type if possible
 // otherwise an error is returned.
 func (*timeScalar) CoerceIn(v interface{}) (interface{}, error) {
@@ -43,10 +48,20 @@ func (*timeScalar) CoerceIn(v interface{}) (interface{}, error) {
 	case nil:
 		// leave as nil
 	case float64:
-		secs := int64(tv)
-		v = time.Unix(0, secs*int64(time.Second)).In(time.UTC).Add(time.Duration((tv - float64(secs)) * float64(time.Second)))
+		if tv != tv || tv <= -maxTimeSecs-1 || maxTimeSecs+1 <= tv {
+			err = newCoerceErr(tv, "Time")
+			v = nil
+		} else {
+			secs := int64(tv)
+			v = time.Unix(0, secs*int64(time.Second)).In(time.UTC).Add(time.Duration((tv - float64(secs)) * float64(time.Second)))
+		}
 	case int64:
-		v = time.Unix(0, tv*int64(time.Second)).In(time.UTC)
+		if tv < -maxTimeSecs || maxTimeSecs < tv {
+			err = newCoerceErr(tv, "Time")
+			v = nil
+		} else {
+			v = time.Unix(0, tv*int64(time.Second)).In(time.UTC)
+		}
 	case string:
 		var t time.Time
 		if t, err = time.Parse(time.RFC3339Nano, tv); err == nil {
@@ -72,10 +87,20 @@ func (t *timeScalar) CoerceOut(v interface{}) (interface{}, error) {
 	case nil:
 		// remains nil
 	case float64:
-		secs := int64(tv)
-		tt = time.Unix(0, secs*int64(time.Second)).In(time.UTC).Add(time.Duration((tv - float64(secs)) * float64(time.Second)))
+		if tv != tv || tv <= -maxTimeSecs-1 || maxTimeSecs+1 <= tv {
+			err = newCoerceErr(tv, "Time")
+			v = nil
+		} else {
+			secs := int64(tv)
+			tt = time.Unix(0, secs*int64(time.Second)).In(time.UTC).Add(time.Duration((tv - float64(secs)) * float64(time.Second)))
+		}
 	case int64:
-		tt = time.Unix(0, tv*int64(time.Second)).In(time.UTC)
+		if tv < -maxTimeSecs || maxTimeSecs < tv {
+			err = newCoerceErr(tv, "Time")
+			v = nil
+		} else {
+			tt = time.Unix(0, tv*int64(time.Second)).In(time.UTC)
+		}
 	case string:
 		tt, err = time.Parse(time.RFC3339Nano, tv)
 	case time.Time:
